@@ -12,11 +12,15 @@
 #include "common.h"
 #include <cstring>
 #include <map>
+#include <memory>
+#include <optional>
 #include <sstream>
 #include "bitserializer/bit_serializer.h"
 #include "bitserializer/rapidjson_archive.h"
 #include "bitserializer/pugixml_archive.h"
 #include "bitserializer/types/std/map.h"
+#include "bitserializer/types/std/memory.h"
+#include "bitserializer/types/std/optional.h"
 #include "bitserializer/types/std/vector.h"
 
 using namespace BitSerializer;
@@ -25,7 +29,7 @@ using XmlArchive = BitSerializer::Xml::PugiXml::XmlArchive;
 
 // ------------------------------------------------------------------ value trees
 struct Tree {
-	enum Kind { Null, Bool, Int, Dbl, Str, Arr, Obj } k = Null;
+	enum Kind { Null, Bool, Int, Dbl, Str, Arr, Obj, None, Some, Flt, Enum } k = Null;
 	bool b = false; bool neg = false; uint64_t mag = 0; uint64_t bits = 0; std::string s;
 	std::vector<Tree> a;
 	std::vector<std::pair<std::string, Tree>> m;
@@ -63,6 +67,21 @@ struct Parser {
 			if (pos - st != 16) throw Syntax{"double"};
 			t.k = Tree::Dbl; t.bits = std::strtoull(s.substr(st, 16).c_str(), nullptr, 16); return t; }
 		case 's': ++pos; t.k = Tree::Str; t.s = hexstr(); return t;
+		case 'g': {
+			++pos; size_t st = pos;
+			while (is_hex(peek())) ++pos;
+			if (pos - st != 16) throw Syntax{"float"};
+			t.k = Tree::Flt; t.bits = std::strtoull(s.substr(st, 16).c_str(), nullptr, 16); return t; }
+		case 'e': {
+			++pos; size_t st = pos;
+			while (peek() >= '0' && peek() <= '9') ++pos;
+			if (pos == st) throw Syntax{"enum"};
+			t.k = Tree::Enum; t.mag = std::strtoull(s.substr(st, pos - st).c_str(), nullptr, 10); return t; }
+		case 'o': {
+			++pos;
+			if (peek() == '-') { ++pos; t.k = Tree::None; return t; }
+			if (peek() != '+') throw Syntax{"optional"};
+			++pos; t.k = Tree::Some; t.a.push_back(value()); return t; }
 		case '[': {
 			++pos; t.k = Tree::Arr;
 			if (peek() == ']') { ++pos; return t; }
@@ -116,10 +135,31 @@ struct Attr {   // XML only
 	}
 };
 
+enum class Colour { Red, Green, DarkBlue };
+REGISTER_ENUM(Colour, {
+	{ Colour::Red, "Red" },
+	{ Colour::Green, "green" },
+	{ Colour::DarkBlue, "Dark Blue&<" }
+})
+
+struct OptC {   // optional / smart pointer members, float, enum, vector<bool>, char
+	std::optional<int32_t> oi; std::optional<std::string> os; std::unique_ptr<std::vector<int32_t>> uv; std::shared_ptr<Inner> sp;
+	float f = 0; Colour e = Colour::Red; std::vector<bool> vb; char c = 0;
+	template <class A> void Serialize(A& a) {
+		a << KeyValue("oi", oi); a << KeyValue("os", os); a << KeyValue("uv", uv); a << KeyValue("sp", sp);
+		a << KeyValue("f", f); a << KeyValue("e", e); a << KeyValue("vb", vb); a << KeyValue("c", c);
+	}
+};
+
 struct AttrOnly {   // XML only: attributes and no element member (the pattern of the documentation's CPoint / CRectangle)
 	int32_t x = 0; std::string type;
 	template <class A> void Serialize(A& ar) { ar << AttributeValue("x", x); ar << AttributeValue("type", type); }
 };
+
+template <class T> struct is_optional_like : std::false_type {};
+template <class T> struct is_optional_like<std::optional<T>> : std::true_type {};
+template <class T> struct is_optional_like<std::unique_ptr<T>> : std::true_type {};
+template <class T> struct is_optional_like<std::shared_ptr<T>> : std::true_type {};
 
 template <class T> struct is_attr : std::false_type {};
 template <> struct is_attr<Attr> : std::true_type {};
@@ -146,6 +186,23 @@ static void fill(T& v, const Tree& t) {
 	}
 }
 static void fill(double& v, const Tree& t) { if (t.k != Tree::Dbl) throw BadValue{}; std::memcpy(&v, &t.bits, 8); }
+// a float is given by (and shown as) the IEEE bits of the same number as a double
+static void fill(float& v, const Tree& t) { if (t.k != Tree::Flt) throw BadValue{}; double d; std::memcpy(&d, &t.bits, 8); v = static_cast<float>(d); }
+static void fill(Colour& v, const Tree& t) { if (t.k != Tree::Enum || t.mag > 2) throw BadValue{}; v = static_cast<Colour>(t.mag); }
+static void fill(char& v, const Tree& t) {
+	if (t.k != Tree::Int) throw BadValue{};
+	if (t.neg) { if (t.mag > 128) throw BadValue{}; v = static_cast<char>(static_cast<signed char>(0 - static_cast<int>(t.mag))); }
+	else { if (t.mag > 127) throw BadValue{}; v = static_cast<char>(t.mag); }
+}
+static void fill(OptC& v, const Tree& t);
+template <class T> static void fill(std::optional<T>& v, const Tree& t);
+template <class T> static void fill(std::unique_ptr<T>& v, const Tree& t);
+template <class T> static void fill(std::shared_ptr<T>& v, const Tree& t);
+static void fill(std::vector<bool>& v, const Tree& t) {
+	if (t.k != Tree::Arr) throw BadValue{};
+	v.clear();
+	for (auto& e : t.a) { if (e.k != Tree::Bool) throw BadValue{}; v.push_back(e.b); }
+}
 static void fill(std::string& v, const Tree& t) { if (t.k != Tree::Str) throw BadValue{}; v = t.s; }
 // the driver's own UTF-8 <-> UTF-16/32 (not the library's): values are valid UTF-8 by construction
 static std::vector<uint32_t> cps_of_utf8(const std::string& s) {
@@ -177,6 +234,21 @@ static void fill(Mix& v, const Tree& t);
 static void fill(Attr& v, const Tree& t);
 static void fill(AttrOnly& v, const Tree& t);
 template <class T> static void fill(std::vector<T>& v, const Tree& t);
+template <class T> static void fill(std::optional<T>& v, const Tree& t) {
+	if (t.k == Tree::None) { v.reset(); return; }
+	if (t.k != Tree::Some) throw BadValue{};
+	T x{}; fill(x, t.a[0]); v = std::move(x);
+}
+template <class T> static void fill(std::unique_ptr<T>& v, const Tree& t) {
+	if (t.k == Tree::None) { v.reset(); return; }
+	if (t.k != Tree::Some) throw BadValue{};
+	v = std::make_unique<T>(); fill(*v, t.a[0]);
+}
+template <class T> static void fill(std::shared_ptr<T>& v, const Tree& t) {
+	if (t.k == Tree::None) { v.reset(); return; }
+	if (t.k != Tree::Some) throw BadValue{};
+	v = std::make_shared<T>(); fill(*v, t.a[0]);
+}
 template <class T> static void fill(std::map<std::string, T>& v, const Tree& t) {
 	if (t.k != Tree::Obj) throw BadValue{};
 	v.clear();
@@ -208,6 +280,12 @@ static void fill(Attr& v, const Tree& t) {
 	if (t.m.size() != i) throw BadValue{};
 }
 
+static void fill(OptC& v, const Tree& t) {
+	size_t i = 0;
+	fill(v.oi, member(t, i++, "oi")); fill(v.os, member(t, i++, "os")); fill(v.uv, member(t, i++, "uv")); fill(v.sp, member(t, i++, "sp"));
+	fill(v.f, member(t, i++, "f")); fill(v.e, member(t, i++, "e")); fill(v.vb, member(t, i++, "vb")); fill(v.c, member(t, i++, "c"));
+	if (t.m.size() != i) throw BadValue{};
+}
 static void fill(AttrOnly& v, const Tree& t) { fill(v.x, member(t, 0, "x")); fill(v.type, member(t, 1, "type")); if (t.m.size() != 2) throw BadValue{}; }
 
 static std::string dump(const std::nullptr_t&) { return "n"; }
@@ -216,6 +294,20 @@ template <class T, std::enable_if_t<std::is_integral_v<T> && !std::is_same_v<T, 
 static std::string dump(const T& v) { return "i" + std::to_string(v); }
 static std::string dump(const double& v) { uint64_t b; std::memcpy(&b, &v, 8); char buf[32]; std::snprintf(buf, sizeof buf, "d%016llx", (unsigned long long)b); return buf; }
 static std::string dump(const std::string& v) { return "s" + hexs(v); }
+static std::string dump(const float& v) { const double d = v; uint64_t b; std::memcpy(&b, &d, 8); char buf[32]; std::snprintf(buf, sizeof buf, "g%016llx", (unsigned long long)b); return buf; }
+static std::string dump(const Colour& v) { return "e" + std::to_string(static_cast<int>(v)); }
+static std::string dump(const char& v) { return "i" + std::to_string(static_cast<int>(v)); }
+static std::string dump(const OptC& v);
+static std::string dump(const Inner& v);
+template <class T> static std::string dump(const std::vector<T>& v);
+template <class T> static std::string dump(const std::optional<T>& v) { return v.has_value() ? "o+" + dump(*v) : std::string("o-"); }
+template <class T> static std::string dump(const std::unique_ptr<T>& v) { return v ? "o+" + dump(*v) : std::string("o-"); }
+template <class T> static std::string dump(const std::shared_ptr<T>& v) { return v ? "o+" + dump(*v) : std::string("o-"); }
+static std::string dump(const std::vector<bool>& v) {
+	std::string r = "["; bool first = true;
+	for (bool e : v) { if (!first) r += ","; first = false; r += e ? "t" : "f"; }
+	return r + "]";
+}
 // wide strings are shown as the UTF-8 of their code units read as UTF-16 / UTF-32 (a lone surrogate or a value above
 // 0x10FFFF is shown as an over-long / out-of-range UTF-8-style sequence, never matching a valid expectation)
 template <class TStr> static std::string dump_wide(const TStr& v) {
@@ -268,6 +360,10 @@ static std::string dump(const Attr& v) {
 		key("v") + dump(v.v) + "," + key("t") + dump(v.t) + "}";
 }
 
+static std::string dump(const OptC& v) {
+	return "{" + key("oi") + dump(v.oi) + "," + key("os") + dump(v.os) + "," + key("uv") + dump(v.uv) + "," + key("sp") + dump(v.sp) + "," +
+		key("f") + dump(v.f) + "," + key("e") + dump(v.e) + "," + key("vb") + dump(v.vb) + "," + key("c") + dump(v.c) + "}";
+}
 static std::string dump(const AttrOnly& v) { return "{" + key("x") + dump(v.x) + "," + key("type") + dump(v.type) + "}"; }
 
 // ------------------------------------------------------------------ configuration
@@ -329,7 +425,8 @@ template <class F> static std::string guarded(F f) {
 template <class TArchive, class T> constexpr bool supported() {
 	constexpr bool is_xml = std::is_same_v<TArchive, XmlArchive>;
 	constexpr bool scalar = std::is_fundamental_v<T> || std::is_same_v<T, std::nullptr_t> || std::is_same_v<T, std::string> ||
-		std::is_same_v<T, std::u16string> || std::is_same_v<T, std::u32string> || std::is_same_v<T, std::wstring>;
+		std::is_same_v<T, std::u16string> || std::is_same_v<T, std::u32string> || std::is_same_v<T, std::wstring> ||
+		std::is_enum_v<T> || is_optional_like<T>::value;     // an empty optional at the root would be a nullptr at the root
 	if (is_xml) return !scalar;            // the XML root scope serialises arrays and objects only
 	return !is_attr<T>::value;             // attributes exist in XML only
 }
@@ -355,11 +452,13 @@ static std::string do_save(const Cfg& cfg, const std::string& rootkey, const T& 
 
 template <class TArchive, class T>
 static std::string do_load(bool stream, const std::string& rootkey, const std::string& pol, const std::string& bytes) {
+	// the target lives outside the lambda: with g++ 12 -O1 -fsanitize=address,undefined a smart-pointer target declared inside it was
+	// not destroyed when LoadObject threw (LeakSanitizer report; not reproducible at -O0, with asan alone, or in a small program)
+	T obj{};
 	return guarded([&]() -> std::string {
 		SerializationOptions o;
 		o.mismatchedTypesPolicy = pol.size() > 0 && pol[0] == 'S' ? MismatchedTypesPolicy::Skip : MismatchedTypesPolicy::ThrowError;
 		o.overflowNumberPolicy = pol.size() > 1 && pol[1] == 'S' ? OverflowNumberPolicy::Skip : OverflowNumberPolicy::ThrowError;
-		T obj{};
 		if (stream) {
 			std::istringstream is(bytes, std::ios::in | std::ios::binary);
 			if constexpr (std::is_same_v<TArchive, XmlArchive>) {
@@ -446,6 +545,23 @@ static std::string run_arch(const std::vector<std::string>& t) {
 	case 39: return run_typed<TArchive, std::wstring>(t);
 	case 40: return run_typed<TArchive, std::vector<std::u16string>>(t);
 	case 41: return run_typed<TArchive, std::map<std::string, std::u32string>>(t);
+	case 42: return run_typed<TArchive, std::vector<bool>>(t);
+	case 43: return run_typed<TArchive, float>(t);
+	case 44: return run_typed<TArchive, std::vector<float>>(t);
+	case 45: return run_typed<TArchive, std::map<std::string, float>>(t);
+	case 46: return run_typed<TArchive, Colour>(t);
+	case 47: return run_typed<TArchive, std::vector<Colour>>(t);
+	case 48: return run_typed<TArchive, std::map<std::string, Colour>>(t);
+	case 49: return run_typed<TArchive, char>(t);
+	case 50: return run_typed<TArchive, std::vector<char>>(t);
+	case 51: return run_typed<TArchive, std::optional<int32_t>>(t);
+	case 52: return run_typed<TArchive, std::optional<std::string>>(t);
+	case 53: return run_typed<TArchive, std::vector<std::optional<int32_t>>>(t);
+	case 54: return run_typed<TArchive, std::vector<std::optional<std::string>>>(t);
+	case 55: return run_typed<TArchive, std::map<std::string, std::optional<double>>>(t);
+	case 56: return run_typed<TArchive, std::unique_ptr<std::vector<int32_t>>>(t);
+	case 57: return run_typed<TArchive, OptC>(t);
+	case 58: return run_typed<TArchive, std::vector<OptC>>(t);
 	default: return "BAD-TYPE";
 	}
 }
